@@ -24,6 +24,7 @@ def work(args):
     from .. import impl
     from Geometry3D import Pyramid
     G = Gen(random.Random(seed))
+    R = G.R
     out = []
     for i in range(n):
         j = idx * 7 + i
@@ -45,6 +46,9 @@ def work(args):
             out.append((D, apex, obs))
         else:
             faces, bk = G.body() if j % 3 == 1 else (G.hull_body(4, 10), 'hull')
+            if R.random() < 0.6:        # away from the origin (origin outside the body): nothing may depend on where the origin is
+                t = tuple(F(R.choice([-6, -5, 4, 5, 6])) if R.random() < 0.7 else F(0) for _ in range(3))
+                faces = [[E.add(p, t) for p in f] for f in faces]
             D = G.shuffled_body(faces)       # shuffles vertex order of each face (random orientation) and the face order
             o = impl.build(D)
             obs = dict(length=impl.call(o.length), area=impl.call(o.area), volume=impl.call(o.volume), volume_fn=impl.call(impl.volume, o))
